@@ -269,6 +269,29 @@ def oracle_curve(ctx, idnt, meta):
                 ctx.violation(f"depends-on-retract:{n}", f"{n} = {v!r} becomes {w!r} when only the retract segment is "
                               "changed", {"input": {"curve": meta}, "expected": float(v), "observed": float(w)})
         idnt["force"], idnt["tip position"], idnt["fit"] = force0, tip0, fit0
+    # "features depend only on the approach segment, its fit and the fitted contact point" - on their CURRENT
+    # values: after an in-place change of the approach force, compute_features equals the feature methods
+    # evaluated now (and differs from the values before, for the features that read the force)
+    from nanite.rate.features import IndentationFeatures
+    app = np.where(seg == 0)[0]
+    if app.size > 20:
+        f5 = force0.copy()
+        c0 = app[int(0.7 * app.size)]
+        f5[app] = f5[app] + 0.25 * float(np.nanmax(np.abs(force0))) * np.exp(-0.5 * ((app - c0) / (0.05 * app.size)) ** 2)
+        idnt["force"] = f5
+        v5, n5 = features(idnt)
+        inst = IndentationFeatures(idnt)
+        with warnings.catch_warnings(), np.errstate(all="ignore"):
+            warnings.simplefilter("ignore")
+            direct = [float(getattr(inst, n)()) for n in n5]
+        for n, v, w in zip(n5, v5, direct):
+            if not same(v, w, exact=True):
+                ctx.violation(f"stale-after-data-change:{n}", f"after an in-place change of the approach force "
+                              f"compute_features returns {n} = {v!r}, the feature evaluated on the current data is {w!r}",
+                              {"input": {"curve": meta, "edit": "gaussian bump of 25 % F_max added to the approach force"},
+                               "expected": float(w), "observed": float(v)})
+                break
+        idnt["force"] = force0
 
 
 def unfitted_states(ctx):
@@ -359,6 +382,21 @@ def values_tie(ctx, count):
         inst = IndentationFeatures(stub)
         base = {"op": "feat", "x": [q(v) for v in x], "y": [q(v) for v in y], "fit": [q(v) for v in fit], "cp": q(cp),
                 **{f"w{s}": [q(v) for v in w] for s, w in ws.items()}}
+        # the public entry point returns, for every dataset, what the feature methods give for THAT dataset
+        with warnings.catch_warnings(), np.errstate(all="ignore"):
+            warnings.simplefilter("ignore")
+            try:
+                cv, cn = IndentationFeatures.compute_features(stub, ret_names=True)
+                dv = [float(getattr(inst, n_)()) for n_ in cn]
+                bad_ = [(n_, a_, b_) for n_, a_, b_ in zip(cn, cv, dv) if not same(a_, b_, exact=True)]
+            except BaseException:  # noqa   (reported by the per-feature loop below)
+                bad_ = []
+        if bad_:
+            ctx.violation(f"compute_features-not-feature-method:{bad_[0][0]}", f"compute_features returns "
+                          f"{bad_[0][0]} = {bad_[0][1]!r} but the feature evaluated on this dataset is {bad_[0][2]!r} "
+                          f"(dataset #{i} of the run)", {"input": {**meta, "x": [float(t) for t in x],
+                                                                   "y": [float(t) for t in y], "fit": [float(t) for t in fit],
+                                                                   "dataset_number": i}})
         for name in MODELLED:
             with warnings.catch_warnings(), np.errstate(all="ignore"):
                 warnings.simplefilter("ignore")
